@@ -452,7 +452,7 @@ func gen(c *hxlib.Ctx) {
 	w1, w2 := newWallet(r), newWallet(r)
 
 	// ---- A. SerializeValue on random trees (all JSON kinds) ----
-	for i := 0; i < c.N(300); i++ {
+	for i := 0; i < c.N(250); i++ {
 		v := randValue(r, 3, i%3)
 		var out []byte
 		var err error
@@ -467,7 +467,7 @@ func gen(c *hxlib.Ctx) {
 	}
 
 	// ---- B. JSON submissions ----
-	nJSON := c.N(200)
+	nJSON := c.N(170)
 	for i := 0; i < nJSON; i++ {
 		w := w1
 		if i%5 == 0 {
@@ -584,7 +584,7 @@ func gen(c *hxlib.Ctx) {
 	}
 
 	// ---- D. binary submissions ----
-	for i := 0; i < c.N(130); i++ {
+	for i := 0; i < c.N(110); i++ {
 		kinds := 0
 		if i%7 == 6 {
 			kinds = 1
